@@ -242,6 +242,37 @@ fn check_value(ctx: &mut Ctx, who: &str, v: &dyn Typed, keys: &[(&str, bool)], r
             return false;
         }
     }
+    // update_paragraph onto a paragraph that was itself produced by to_paragraph (both back-ends):
+    // the result must print to text that re-reads as the value, with no stray lines
+    let res = guard(8192, || {
+        let mut pl = v.to_lossy();
+        let mut pll = v.to_lossless();
+        v.update_lossy(&mut pl);
+        v.update_lossless(&mut pll);
+        let tl = pl.to_string();
+        let tll = pll.to_string();
+        let rl = if il.is_empty() { Ok(vec![]) } else { lossy::Paragraph::from_str(&tl).map(|p| items_lossy(&p)).map_err(|e| e.to_string()) };
+        let rll = if il.is_empty() { Ok(vec![]) } else { deb822_lossless::Deb822::from_str(&tll).map(|d| d.paragraphs().map(|p| items_lossless(&p)).collect::<Vec<_>>()).map_err(|e| e.to_string()) };
+        (tl, tll, rl, rll)
+    });
+    match res {
+        Err(f) => {
+            fail(ctx, &f.class(), who, "update_paragraph(to_paragraph output)", json!({"value": il, "failure": f.json()}));
+            return false;
+        }
+        Ok((tl, tll, rl, rll)) => {
+            let norm = |v: &Vec<(String, String)>| v.iter().map(|(k, x)| (k.clone(), x.trim_start_matches('\n').to_string())).collect::<Vec<_>>();
+            if !matches!(&rl, Ok(items) if norm(items) == norm(&il)) {
+                fail(ctx, "self-update-rereads-differently", who, "lossy", json!({"value": il, "printed": clip(&tl), "reread": format!("{:?}", rl)}));
+                return false;
+            }
+            let one_para = matches!(&rll, Ok(ps) if (il.is_empty() && ps.is_empty()) || (ps.len() == 1 && norm(&ps[0]) == norm(&il)));
+            if !one_para {
+                fail(ctx, "self-update-rereads-differently", who, "lossless", json!({"value": il, "printed": clip(&tll), "reread": format!("{:?}", rll)}));
+                return false;
+            }
+        }
+    }
     true
 }
 
